@@ -89,6 +89,15 @@ def build(ctx, rule):
     from ..core import fold_consts
 
     m.worker = fold_consts(tail_inlined(repo, hoist_calls(repo, m.worker)))  # helpers of the worker (tallies, formatting) are read inlined
+    if any(isinstance(c, ast.Call) and isinstance(c.func, ast.Attribute) and c.func.attr == "get" and isinstance(c.func.value, ast.Name) and isinstance(m.worker.module.consts.get(c.func.value.id), ast.Dict) for c in walk_own(m.worker.node)):
+        from ..core import expand_table_dispatch
+
+        m.worker = fold_consts(expand_table_dispatch(m.worker))  # `kind = OPS.get(code)`: the case analysis it abbreviates
+    from ..core import fuse_split_loops, inline_pure_temps
+
+    if len([l for l in walk_own(m.worker.node) if isinstance(l, ast.For) and "cigartuples" in norm(l.iter)]) > 1:
+        m.worker = fuse_split_loops(m.worker)  # a tallies pass and a spelling pass over the same operations
+    m.worker = inline_pure_temps(m.worker)  # `span = rec.query_end - rec.query_start`, `matches = totals__match` read in place
     ctx.analysed_func(m.parent)
     ctx.analysed_func(m.worker)
     m.pqueues = set()
